@@ -4,8 +4,15 @@ use unimock::*;
 #[derive(Clone, Debug, PartialEq)]
 pub enum E { A, B(i32), C { x: i32, y: bool } }
 
-#[derive(Clone, Debug, PartialEq)]
+/// PartialEq is hand-written: `ne` is overridden and is NOT the negation of `eq` (it looks at the first field only), so that
+/// ne!(..) must really evaluate `!=` and eq!(..) `==` (Macro/RustPat.v vneb)
+#[derive(Clone, Debug)]
 pub struct S { pub a: i32, pub b: bool }
+impl PartialEq for S {
+    fn eq(&self, other: &S) -> bool { self.a == other.a && self.b == other.b }
+    #[allow(clippy::partialeq_ne_impl)]
+    fn ne(&self, other: &S) -> bool { self.a != other.a }
+}
 
 /// newtype over String: only reachable through AsRef<str>
 #[derive(Clone, Debug, PartialEq)]
